@@ -7,6 +7,9 @@ from rkstatic.selftest import run_one
 arg = sys.argv[1]
 if arg == 'seeded':
     items = [(os.path.basename(os.path.dirname(p)), p, True) for p in sorted(glob.glob('/verif/seeded/*/patch.diff'))]
+    rounds = [int(a.split('=')[1]) for a in sys.argv[2:] if a.startswith('--round=')]      # only the changes of these rounds
+    if rounds:
+        items = [it for it in items if json.load(open('/verif/seeded/%s/meta.json' % it[0])).get('round', 1) in rounds]
 else:
     items = [(os.path.basename(os.path.dirname(p)), p, False) for p in sorted(glob.glob(arg))]
 def one(it):
